@@ -122,6 +122,10 @@ theorem ntt_mul_exact (d : Nat) (hd : d ≤ 10) (a b : List Nat)
 theorem ntt_is_the_breadth_first_loop_nest (d : Nat) (a : List Nat) (ha : a.length = 2 ^ d) :
     ntt d a = FftFlt.nttBF zqOps T d a := ntt_eq_BF d a ha
 
+/-- … and so are the butterflies of the inverse transform (merging stages, innermost first, `psi_inv_rev[h + i]`) -/
+theorem intt_is_the_breadth_first_loop_nest (d : Nat) (a : List Nat) (ha : a.length = 2 ^ d) :
+    inttRec d 1 a = FftFlt.inttBF zqOps TI d a := inttRec_eq_BF d a ha
+
 /-- the multiplication `⋆` used above is multiplication in Z_q[X]/(X^n+1): X·(p₀,…,p_{n−1}) = (−p_{n−1}, p₀, …) -/
 example : negacyc 4 [0, 1, 0, 0] [1, 2, 3, 4] = [12285, 1, 2, 3] := by decide
 /-- non-vacuity: a concrete instance of both theorems' hypotheses and conclusions -/
